@@ -719,6 +719,336 @@ fn dcsim(input: &[V]) -> Vec<V> {
     v
 }
 
+
+// ------------------------------------------------------------------------------------------
+// component `dcrecv`: the sans-IO receiver `stream::recv::state::State` alone, fed with stream
+// packets built by the real encoder and sealed with real keys (as the C18 harness does)
+// ------------------------------------------------------------------------------------------
+//
+// case: [seed, total_len (<= 12000), then ops of 3 integers (kind, a, b)]
+//   kind 0  stream-space packet  pn = a mod 48, offset = b mod (total+1), len = up to 1100 (from a),
+//           carries the final size when it reaches the end of the stream
+//   kind 1  the same range as a retransmission (recovery space, pn = a mod 48)
+//   kind 2  replay the (a mod n)-th packet built so far, byte for byte
+//   kind 3  the worker transmits an ACK (on_transmit); the control packet is decoded and checked
+//   kind 4  the application reads up to (a mod 4000) + 1 bytes
+// output: [ops executed,
+//          then per packet op (kinds 0..2): expected_duplicate, code (0 accepted, 1 Duplicate, 2 other error)
+//          as pairs, then -1,
+//          read, correct, dup_changed_state, acks_subset, acked_count, max_data_monotone, eof, total]
+mod recv_driver {
+    use super::{payload_byte, Cur, V};
+    use s2n_codec::{DecoderBufferMut, EncoderBuffer};
+    use s2n_quic_core::{
+        buffer::{self, reader::storage::Chunk, Reassembler},
+        endpoint,
+        frame::FrameMut,
+        inet::{ExplicitCongestionNotification, SocketAddress},
+        time::clock::testing as clock,
+        varint::VarInt,
+    };
+    use s2n_quic_dc::{
+        allocator::{Allocator, Segment},
+        credentials::{Credentials, Id},
+        crypto::awslc,
+        event,
+        packet::{control, stream},
+        path::secret::schedule,
+        stream::{recv, shared::AcceptState, TransportFeatures},
+    };
+    use std::collections::BTreeSet;
+
+    struct Rd<'a> {
+        offset: VarInt,
+        payload: &'a [u8],
+        cursor: usize,
+        final_offset: Option<VarInt>,
+    }
+    impl buffer::reader::Storage for Rd<'_> {
+        type Error = core::convert::Infallible;
+        fn buffered_len(&self) -> usize {
+            self.payload.len() - self.cursor
+        }
+        fn read_chunk(&mut self, watermark: usize) -> Result<Chunk<'_>, Self::Error> {
+            let remaining = &self.payload[self.cursor..];
+            let len = remaining.len().min(watermark);
+            self.cursor += len;
+            Ok((&remaining[..len]).into())
+        }
+        fn partial_copy_into<Dest>(&mut self, dest: &mut Dest) -> Result<Chunk<'_>, Self::Error>
+        where
+            Dest: buffer::writer::Storage + ?Sized,
+        {
+            self.read_chunk(dest.remaining_capacity())
+        }
+    }
+    impl buffer::Reader for Rd<'_> {
+        fn current_offset(&self) -> VarInt {
+            self.offset + self.cursor
+        }
+        fn final_offset(&self) -> Option<VarInt> {
+            self.final_offset
+        }
+    }
+
+    #[derive(Debug)]
+    struct Seg(Vec<u8>);
+    impl Segment for Seg {
+        fn leak(&mut self) {}
+    }
+    /// collects the control packets the receiver wants to send
+    #[derive(Default)]
+    struct Outbox {
+        sent: Vec<Vec<u8>>,
+        ecn: ExplicitCongestionNotification,
+        addr: SocketAddress,
+    }
+    impl Allocator for Outbox {
+        type Segment = Seg;
+        type Retransmission = Seg;
+        fn alloc(&mut self) -> Option<Seg> {
+            Some(Seg(vec![]))
+        }
+        fn get<'a>(&'a self, segment: &'a Seg) -> &'a Vec<u8> {
+            &segment.0
+        }
+        fn get_mut<'a>(&'a mut self, segment: &'a Seg) -> &'a mut Vec<u8> {
+            // the segment owns its bytes
+            unsafe { &mut *(&segment.0 as *const Vec<u8> as *mut Vec<u8>) }
+        }
+        fn push(&mut self, segment: Seg) {
+            self.sent.push(segment.0);
+        }
+        fn push_with_retransmission(&mut self, segment: Seg) -> Seg {
+            self.sent.push(segment.0.clone());
+            segment
+        }
+        fn retransmit(&mut self, segment: Seg) -> Seg {
+            segment
+        }
+        fn retransmit_copy(&mut self, retransmission: &Seg) -> Option<Seg> {
+            Some(Seg(retransmission.0.clone()))
+        }
+        fn can_push(&self) -> bool {
+            true
+        }
+        fn is_empty(&self) -> bool {
+            self.sent.is_empty()
+        }
+        fn segment_len(&self) -> Option<u16> {
+            None
+        }
+        fn free(&mut self, _segment: Seg) {}
+        fn free_retransmission(&mut self, _segment: Seg) {}
+        fn ecn(&self) -> ExplicitCongestionNotification {
+            self.ecn
+        }
+        fn set_ecn(&mut self, ecn: ExplicitCongestionNotification) {
+            self.ecn = ecn;
+        }
+        fn remote_address(&self) -> SocketAddress {
+            self.addr
+        }
+        fn set_remote_address(&mut self, addr: SocketAddress) {
+            self.addr = addr;
+        }
+        fn set_remote_port(&mut self, port: u16) {
+            self.addr.set_port(port);
+        }
+        fn force_clear(&mut self) {
+            self.sent.clear();
+        }
+    }
+
+    pub fn dcrecv(input: &[V]) -> Vec<V> {
+        let mut c = Cur::new(input);
+        let seed = c.u64();
+        let total = c.u64().min(12000);
+        let key_id = VarInt::from_u8(3);
+        let v = s2n_quic_dc::SUPPORTED_VERSIONS[0];
+        let mut export = [7u8; 32];
+        export[..8].copy_from_slice(&seed.to_be_bytes());
+        let cs = schedule::Ciphersuite::AES_GCM_128_SHA256;
+        let client = schedule::Secret::new(cs, v, endpoint::Type::Client, &export);
+        let server = schedule::Secret::new(cs, v, endpoint::Type::Server, &export);
+        let (app_seal, _, _, _): (awslc::seal::Application, _, _, _) = client.application_pair(key_id, schedule::Initiator::Local);
+        let (_, _, app_open, _): (_, _, awslc::open::Application, _) = server.application_pair(key_id, schedule::Initiator::Remote);
+        let (ctl_seal, _) = client.control_pair(key_id, schedule::Initiator::Local);
+        let (srv_ctl_seal, ctl_open) = server.control_pair(key_id, schedule::Initiator::Remote);
+        let (_, cli_ctl_open) = client.control_pair(key_id, schedule::Initiator::Local);
+        let creds = Credentials { id: Id::from([9u8; 16]), key_id };
+        let stream_id = stream::Id::unreliable_unidirectional(VarInt::from_u8(1)).unwrap().reliable().bidirectional();
+
+        let clk = clock::Clock::default();
+        let params = s2n_quic_core::dc::testing::TEST_APPLICATION_PARAMS;
+        let mut state = recv::state::State::new(stream_id, &params, TransportFeatures::UDP, &clk);
+        let mut reasm = Reassembler::default();
+        let publisher = event::testing::Publisher::no_snapshot();
+        let mut outbox = Outbox::default();
+
+        let data: Vec<u8> = (0..total).map(|o| payload_byte(seed, 0, o)).collect();
+        let mut built: Vec<(u8, u64, Vec<u8>)> = vec![]; // space, pn, wire image
+        let mut accepted: [BTreeSet<u64>; 2] = [BTreeSet::new(), BTreeSet::new()];
+        let mut out: Vec<V> = vec![0];
+        let mut pairs: Vec<V> = vec![];
+        let (mut read, mut correct, mut dup_changed, mut acks_subset, mut acked_count, mut md_mono) = (0u64, true, false, true, 0u64, true);
+        let mut last_md = 0u64;
+        let mut ops = 0;
+
+        while !c.done() && ops < 400 {
+            ops += 1;
+            let (kind, a, b) = (c.u64() % 5, c.u64(), c.u64());
+            match kind {
+                0 | 1 | 2 => {
+                    let wire: (u8, u64, Vec<u8>) = if kind == 2 {
+                        if built.is_empty() {
+                            continue;
+                        }
+                        built[(a as usize) % built.len()].clone()
+                    } else {
+                        let pn = a % 48;
+                        let off = if total == 0 { 0 } else { b % (total + 1) };
+                        let len = ((a / 48) % 1100 + 1).min(total - off);
+                        let fin = off + len == total;
+                        let mut buf = vec![0u8; 1500];
+                        let mut rd = Rd {
+                            offset: VarInt::new(off).unwrap(),
+                            payload: &data[off as usize..(off + len) as usize],
+                            cursor: 0,
+                            final_offset: fin.then(|| VarInt::new(total).unwrap()),
+                        };
+                        // a retransmission is the original packet (some other original number) moved to the recovery space
+                        let orig_pn = if kind == 1 { VarInt::new(1000 + pn).unwrap() } else { VarInt::new(pn).unwrap() };
+                        let n = stream::encoder::encode(
+                            EncoderBuffer::new(&mut buf),
+                            None,
+                            stream_id,
+                            orig_pn,
+                            VarInt::ZERO,
+                            VarInt::ZERO,
+                            &mut &[][..],
+                            VarInt::ZERO,
+                            &(),
+                            &mut rd,
+                            &app_seal,
+                            &creds,
+                        );
+                        buf.truncate(n);
+                        if kind == 1 {
+                            stream::decoder::Packet::retransmit(
+                                DecoderBufferMut::new(&mut buf),
+                                stream::PacketSpace::Recovery,
+                                VarInt::new(pn).unwrap(),
+                                &ctl_seal,
+                            )
+                            .expect("retransmit");
+                        }
+                        let w = (kind as u8, pn, buf);
+                        built.push(w.clone());
+                        w
+                    };
+                    let (space, pn, mut bytes) = wire;
+                    let expected_dup = accepted[space as usize].contains(&pn);
+                    let before = (reasm.len(), reasm.total_received_len(), accepted.clone());
+                    let res = {
+                        let (mut p, _) = stream::decoder::Packet::decode(DecoderBufferMut::new(&mut bytes), (), 16).expect("decode");
+                        state.on_stream_packet(
+                            &app_open,
+                            &ctl_open,
+                            &creds,
+                            &mut p,
+                            ExplicitCongestionNotification::default(),
+                            AcceptState::Accepted,
+                            &clk,
+                            &mut reasm,
+                            &publisher,
+                        )
+                    };
+                    let code = match &res {
+                        Ok(()) => 0,
+                        Err(e) if matches!(e.kind(), recv::ErrorKind::Duplicate) => 1,
+                        Err(_) => 2,
+                    };
+                    if code == 0 {
+                        accepted[space as usize].insert(pn);
+                    }
+                    if expected_dup && (before.0 != reasm.len() || before.1 != reasm.total_received_len()) {
+                        dup_changed = true;
+                    }
+                    pairs.push(expected_dup as V);
+                    pairs.push(code);
+                }
+                3 => {
+                    outbox.sent.clear();
+                    state.on_transmit(&srv_ctl_seal, &creds, stream_id, None, &mut outbox, &clk, &publisher);
+                    for mut pkt in outbox.sent.drain(..) {
+                        let Ok((mut p, _)) = control::decoder::Packet::decode(DecoderBufferMut::new(&mut pkt), (), 16) else {
+                            acks_subset = false;
+                            continue;
+                        };
+                        if s2n_quic_dc::crypto::open::Control::verify(&cli_ctl_open, p.header(), p.auth_tag()).is_err() {
+                            acks_subset = false;
+                        }
+                        for frame in p.control_frames_mut() {
+                            match frame {
+                                Ok(FrameMut::Ack(ack)) => {
+                                    let space = if ack.ecn_counts.is_some() { 0 } else { 1 };
+                                    for r in ack.ack_ranges() {
+                                        for pn in r.start().as_u64()..=r.end().as_u64() {
+                                            acked_count += 1;
+                                            if !accepted[space].contains(&pn) {
+                                                acks_subset = false;
+                                            }
+                                        }
+                                    }
+                                }
+                                Ok(FrameMut::MaxData(md)) => {
+                                    let m = md.maximum_data.as_u64();
+                                    if m < last_md {
+                                        md_mono = false;
+                                    }
+                                    last_md = m;
+                                }
+                                Ok(_) => {}
+                                Err(_) => acks_subset = false,
+                            }
+                        }
+                    }
+                }
+                _ => {
+                    let want = (a % 4000 + 1) as usize;
+                    let mut chunk: Vec<u8> = Vec::with_capacity(want);
+                    {
+                        let mut lim = buffer::writer::storage::Storage::with_write_limit(&mut chunk, want);
+                        state.on_read_buffer(&mut reasm, &mut lim, AcceptState::Accepted, &clk);
+                    }
+                    for (i, byte) in chunk.iter().enumerate() {
+                        if *byte != payload_byte(seed, 0, read + i as u64) {
+                            correct = false;
+                        }
+                    }
+                    read += chunk.len() as u64;
+                }
+            }
+        }
+        out[0] = ops as V;
+        out.extend(pairs);
+        out.push(-1);
+        let eof = buffer::Reader::final_offset(&reasm).is_some() && buffer::Reader::is_consumed(&reasm);
+        out.extend_from_slice(&[
+            read as V,
+            correct as V,
+            dup_changed as V,
+            acks_subset as V,
+            acked_count as V,
+            md_mono as V,
+            eof as V,
+            total as V,
+        ]);
+        out
+    }
+}
+
 // ------------------------------------------------------------------------------------------
 // main: like h_common::main_with, but the cases of one invocation are spread over threads
 // (each simulation is single-threaded and owns its bach runtime); output order = input order
@@ -800,7 +1130,7 @@ fn main() {
     } else {
         std::panic::set_hook(Box::new(|_| {}));
     }
-    let comps: &[(&str, h_common::Component)] = &[("dcsim", dcsim)];
+    let comps: &[(&str, h_common::Component)] = &[("dcsim", dcsim), ("dcrecv", recv_driver::dcrecv)];
     let name = std::env::args().nth(1).expect("component name");
     let f = comps
         .iter()
